@@ -44,17 +44,45 @@ theorem fresh_repaired_examples :
 example : (run false base).report =
     [(1, false, some [1, 2]), (2, true, some [1, 2]), (3, true, some [1, 2]), (4, true, some [1, 2])] := by decide
 
+/-- aliases pairwise distinct throughout: `X1 = {1}`, `X2 = ∅`, `D1 := X1` calculated to `{1}`; then
+`X1` is renamed to `X9` and `X2` to `X1`, both without substitution -/
+def histRename : List Op :=
+  [.schema (.insert ⟨1, "X1", .base, .empty⟩), .schema (.insert ⟨2, "X2", .base, .empty⟩), .addElem 1,
+   .schema (.insert ⟨3, "D1", .term, .union ["X1"]⟩), .calculate 3,
+   .schema (.setAlias 1 "X9" false), .schema (.setAlias 2 "X1" false)]
+
+/-- pinned defect 4 (found by this verification, outside the three code paths above):
+`SetAliasFor(target, newName, substitute = false)` renamed a constituent without touching the
+definitions that mention it and without resetting any value. On `histRename` the term `D1 := X1` is
+well typed, denotes the empty set, and still shows `{1}` as its calculated value -/
+theorem fresh_rename_counterexample :
+    (run true histRename).fresh = false ∧
+    (run true histRename).report = [(1, false, some [1]), (2, false, some []), (3, true, some [1])] ∧
+    (run true histRename).recomputed.report = [(1, false, some [1]), (2, false, some []), (3, true, some [])] ∧
+    (run true histRename).sch.report =
+      [(1, .verified, some "X9"), (2, .verified, some "X1"), (3, .verified, some "X1")] := by decide
+
+/-- the repaired code (dependants collected before the rename are reset) on the same history: the
+value of `D1` is dropped with the first rename -/
+theorem fresh_rename_repaired_example :
+    (run false histRename).fresh = true ∧
+    (run false histRename).report = [(1, false, some [1]), (2, false, some []), (3, false, none)] := by
+  decide
+
+theorem histRename_distinct : ∀ k, AliasesDistinct (run false (histRename.take k)).sch := by
+  intro k
+  by_cases hk : k < 8
+  · have h : ∀ k ∈ List.range 8, AliasesDistinct (run false (histRename.take k)).sch := by decide
+    exact h k (List.mem_range.2 hk)
+  · rw [List.take_of_length_le (by simp only [histRename, List.length_cons, List.length_nil]; omega)]
+    decide
+
 /-! ## the repaired code: what holds and what does not
 
-`fresh_statement` quantifies over *all* `load`-free histories. It is false for two independent
-reasons, both outside the three repaired code paths:
-
-* `RSModel` never checks aliases (only the identity manager of `RSCore` keeps them unique); when two
-  constituents carry the same alias, `Insert` can change the constituent a mention denotes without
-  any value being reset;
-* `SetAliasFor(target, newName, substitute = false)` renames a constituent without touching the
-  definitions that mention it and without resetting any value (`RSModel::SetAliasFor` only forwards
-  to the core), although the mentions of the old — and of the new — name now denote something else. -/
+`fresh_statement` quantifies over *all* `load`-free histories, including those in which two
+constituents carry the same alias. `RSModel` never checks aliases (only the identity manager of
+`RSCore` keeps them unique), and for such histories the statement is false: `Insert` can change the
+constituent a mention denotes without any value being reset. -/
 
 /-- `X1` (uid 2) with one element, `D1 := X1` calculated to `{1}`, then a second `X1` with the
 smaller uid 1 is inserted: the mention now denotes the empty uid 1, `D1` still shows `{1}` -/
@@ -65,32 +93,8 @@ def histDup : List Op :=
 
 theorem fresh_dup_alias_counterexample : (run false histDup).fresh = false := by decide
 
-/-- aliases pairwise distinct throughout: `X1 = {1}`, `X2 = ∅`, `D1 := X1` calculated to `{1}`; then
-`X1` is renamed to `X9` and `X2` to `X1`, both without substitution: `D1 := X1` is well typed,
-denotes the empty set, and still shows `{1}` as its calculated value -/
-def histRename : List Op :=
-  [.schema (.insert ⟨1, "X1", .base, .empty⟩), .schema (.insert ⟨2, "X2", .base, .empty⟩), .addElem 1,
-   .schema (.insert ⟨3, "D1", .term, .union ["X1"]⟩), .calculate 3,
-   .schema (.setAlias 1 "X9" false), .schema (.setAlias 2 "X1" false)]
-
-theorem fresh_rename_counterexample :
-    (run false histRename).fresh = false ∧
-    (run false histRename).report = [(1, false, some [1]), (2, false, some []), (3, true, some [1])] ∧
-    (run false histRename).recomputed.report = [(1, false, some [1]), (2, false, some []), (3, true, some [])] ∧
-    (run false histRename).sch.report =
-      [(1, .verified, some "X9"), (2, .verified, some "X1"), (3, .verified, some "X1")] := by decide
-
-theorem histRename_distinct : ∀ k, AliasesDistinct (run false (histRename.take k)).sch := by
-  intro k
-  by_cases hk : k < 8
-  · have h : ∀ k ∈ List.range 8, AliasesDistinct (run false (histRename.take k)).sch := by decide
-    exact h k (List.mem_range.2 hk)
-  · rw [List.take_of_length_le (by simp only [histRename, List.length_cons, List.length_nil]; omega)]
-    decide
-
 /-- the statement as first formulated is false (for the model, and — the model being a
-transcription — for `RSModel` used without `RSCore`'s alias discipline, resp. with
-`SetAliasFor(…, false)`) -/
+transcription — for `RSModel` used without `RSCore`'s alias discipline) -/
 theorem fresh_statement_false : ¬ fresh_statement := by
   intro h
   have := h histDup (by
@@ -100,34 +104,19 @@ theorem fresh_statement_false : ¬ fresh_statement := by
   rw [fresh_dup_alias_counterexample] at this
   cases this
 
-/-- … and it stays false when aliases are required to be pairwise distinct throughout -/
-theorem fresh_statement_distinct_false :
-    ¬ ∀ ops : List Op, (∀ op ∈ ops, ∀ c, op ≠ .schema (.load c)) →
-      (∀ k, AliasesDistinct (run false (ops.take k)).sch) → (run false ops).fresh = true := by
-  intro h
-  have := h histRename (by
-    intro op hop c e
-    subst e
-    simp [histRename] at hop) histRename_distinct
-  rw [fresh_rename_counterexample.1] at this
-  cases this
-
 /-- **C11.** After every admissible history (`AdmissibleFrom`: no `load`; after every `insert`,
-`setAlias`, `substitute` the aliases are still pairwise distinct; `setAlias` without substitution
-only for an alias that no definition mentions) — with arbitrary definition edits, erasures, data
-edits, calculations and renamings — every constituent that reports a calculated value reports the
+`setAlias`, `substitute` the aliases are still pairwise distinct) — with arbitrary definition edits,
+erasures, data edits, calculations and renamings with or without substitution — every constituent that reports a calculated value reports the
 value a full recalculation from the current base data and definitions gives. -/
 theorem fresh (ops : List Op) (ha : AdmissibleFrom {} ops) : (run false ops).fresh = true :=
   (Inv.run ha).fresh
 
 /-- the same for histories along which aliases stay pairwise distinct — the discipline `RSCore`
-enforces — and that do not rename without substitution; this is `fresh_statement` with these two
-extra hypotheses -/
+enforces; this is `fresh_statement` with that one extra hypothesis -/
 theorem fresh_of_distinct_aliases (ops : List Op)
     (hl : ∀ op ∈ ops, ∀ c, op ≠ .schema (.load c))
-    (hs : ∀ op ∈ ops, ∀ u a, op ≠ .schema (.setAlias u a false))
     (hd : ∀ k, AliasesDistinct (run false (ops.take k)).sch) : (run false ops).fresh = true :=
-  fresh ops (admissibleFrom_of_distinct ops {} hl hs hd)
+  fresh ops (admissibleFrom_of_distinct ops {} hl hd)
 
 /-- operations that do not change aliases -/
 def NoAliasChange : Op → Prop
@@ -139,13 +128,10 @@ def NoAliasChange : Op → Prop
 recalculateAll (a special case of `fresh_of_distinct_aliases`) -/
 theorem fresh_partial (ops : List Op) (hn : ∀ op ∈ ops, NoAliasChange op)
     (hd : ∀ k, AliasesDistinct (run false (ops.take k)).sch) : (run false ops).fresh = true := by
-  refine fresh_of_distinct_aliases ops ?_ ?_ hd
-  · intro op hop c e
-    subst e
-    exact hn _ hop
-  · intro op hop u a e
-    subst e
-    exact hn _ hop
+  refine fresh_of_distinct_aliases ops ?_ hd
+  intro op hop c e
+  subst e
+  exact hn _ hop
 
 /-- stronger than `fresh`, independent of the `calculated` flag: whatever value is stored for a
 term is the value a full recalculation assigns -/
@@ -165,9 +151,9 @@ theorem values_declarative (ops : List Op) (ha : AdmissibleFrom {} ops) :
       (run false ops).recalculateAll.dataFor u = some v) :=
   ⟨(Inv.run ha).val, fun _ _ _ h => recalc_computes (Inv.run ha).wf h⟩
 
-/-! non-vacuity: the histories of the three repaired defects are admissible (and keep aliases
+/-! non-vacuity: the histories of the four repaired defects are admissible (and keep aliases
 distinct); a mixed history with erasure, renaming with and without substitution and `substitute`
-in which calculated values survive; the two counterexample histories are not admissible -/
+in which calculated values survive; the duplicate-alias history is not admissible -/
 
 example : AdmissibleFrom {} (base ++ [.schema (.setDef 2 (.union ["D9"]))]) := by decide
 example : AdmissibleFrom {} (base ++ [.setText 1 [1, 3]]) := by decide
@@ -182,6 +168,6 @@ example : AdmissibleFrom {} histMixed := by decide
 example : (run false histMixed).report =
     [(1, false, some [1, 2]), (2, true, some [1, 2]), (3, true, some [1]), (5, false, some [1])] := by decide
 example : ¬ AdmissibleFrom {} histDup := by decide
-example : ¬ AdmissibleFrom {} histRename := by decide
+example : AdmissibleFrom {} histRename := by decide
 
 end CCVerif.RSModel
